@@ -186,8 +186,14 @@ func (sc *scenario) buildEnv() {
 	case 1:
 		root += "env:\n" + envEntry("  ", n, "globalenv", e.Kind)
 	case 2:
-		root += "dotenv: ['g.env']\n"
-		files["g.env"] = n + "=globaldot.lit\n"
+		// in the literal-kind half of the lattice the file is called .env, the name the experiments loader reads too
+		// (only its TASK_X_* keys may reach the process environment)
+		gf := "g.env"
+		if e.Kind == kLit {
+			gf = ".env"
+		}
+		root += "dotenv: ['" + gf + "']\n"
+		files[gf] = n + "=globaldot.lit\n"
 	}
 	var t strings.Builder
 	t.WriteString("tasks:\n")
